@@ -66,6 +66,31 @@ def settingsVerdict (aesni : Bool) (c : Cfg) (b : Built) : String :=
   else if b != effective aesni c then "bad:wrong-settings:versions/ciphers/curves/ALPN differ from the site's"
   else "ok"
 
+/-- the index of the config that must govern a handshake for `sni` (none: no site matches) -/
+def wanted (cfgs : List Cfg) (sni : Bytes) (localAddr : Option Bytes) : Option Nat :=
+  let name := normalizedName sni
+  let byIP := if name = [] then localAddr.bind (fun a => lastIdx cfgs (Casket.VHost.stripPort a) 0) else none
+  match byIP with
+  | some j => some j
+  | none => (specKey cfgs name).bind (fun k => lastIdx cfgs k 0)
+
+/-- verdict for a consistent, TLS-enabled site set -/
+def selectVerdict (aesni : Bool) (cfgs : List Cfg) (sni : Bytes) (localAddr : Option Bytes) (o : Obs) : String :=
+  match o with
+  | .error _ => "bad:valid-set-rejected:a consistent site set was rejected"
+  | .plain => "bad:tls-listener-plain:TLS sites but a plaintext listener"
+  | .nothing => "bad:no-config:no TLS settings returned"
+  | .any =>
+    if (wanted cfgs sni localAddr).isSome then "bad:wrong-config:a site matches the name but an arbitrary config is used"
+    else "ok"
+  | .cfg i b =>
+    match cfgs[i]? with
+    | none => "bad:wrong-config:unknown config"
+    | some c =>
+      match wanted cfgs sni localAddr with
+      | some j => if i != j then "bad:wrong-config:another config than the most specific match for the name is used" else settingsVerdict aesni c b
+      | none => settingsVerdict aesni c b
+
 def verdict (aesni : Bool) (cfgs : List Cfg) (sni : Bytes) (localAddr : Option Bytes) (o : Obs) : String :=
   if !inDomain cfgs then "ok"
   else if mixed cfgs then
@@ -84,25 +109,20 @@ def verdict (aesni : Bool) (cfgs : List Cfg) (sni : Bytes) (localAddr : Option B
     match o with
     | .error _ => "ok"
     | _ => "bad:incompatible-accepted:two sites share an SNI key with different settings"
-  else
-    match o with
-    | .error _ => "bad:valid-set-rejected:a consistent site set was rejected"
-    | .plain => "bad:tls-listener-plain:TLS sites but a plaintext listener"
-    | .nothing => "bad:no-config:no TLS settings returned"
-    | .any =>
-      if (specKey cfgs (normalizedName sni)).isSome then "bad:wrong-config:a site matches the name but an arbitrary config is used"
+  else selectVerdict aesni cfgs sni localAddr o
+
+/-- the strict-SNI clause, on what a request over a connection got: a site that demands client
+certificates (and keeps the check on) serves only requests whose TLS server name equals the
+Host name (port stripped, letter case ignored) -/
+def sniVerdict (cfgs : List Cfg) (r : Casket.VHost.Req) (sni : Option Bytes) (o : Served) : String :=
+  match o, sni with
+  | .site i, some name =>
+    match cfgs[i]? with
+    | none => "ok"
+    | some c =>
+      if c.clientAuth != 0 && !c.disableSNIMatching && lower name != lower (Casket.VHost.stripPort r.host) then
+        "bad:clientauth-sni-mismatch:a client-certificate site served a request whose SNI differs from its Host"
       else "ok"
-    | .cfg i b =>
-      let name := normalizedName sni
-      let byIP := if name = [] then localAddr.bind (fun a => lastIdx cfgs (Casket.VHost.stripPort a) 0) else none
-      let want := match byIP with
-        | some j => some j
-        | none => (specKey cfgs name).bind (fun k => lastIdx cfgs k 0)
-      match cfgs[i]? with
-      | none => "bad:wrong-config:unknown config"
-      | some c =>
-        match want with
-        | some j => if i != j then s!"bad:wrong-config:config {i} used, the most specific match is {j}" else settingsVerdict aesni c b
-        | none => settingsVerdict aesni c b
+  | _, _ => "ok"
 
 end Casket.TLSSpec
